@@ -46,7 +46,10 @@ import (
 
 // Save is one generated save operation.
 type Save struct {
-	// Op: write | upgrade (config); add | remove | migrate (leases); refresh (filter).
+	// Op: write | upgrade (config); add | remove | migrate | overlap (leases);
+	// refresh (filter).  "overlap" adds N (2..3) static leases at the same
+	// time from separate goroutines, so that their saves overlap; it is always
+	// the last save of a case.
 	Op string `json:"op"`
 	// N items of Len bytes each, content derived from Seed.
 	N    int `json:"n,omitempty"`
@@ -155,6 +158,17 @@ func Gen(t *rapid.T, tier string) any {
 			sc.LegacySchema = rapid.SampledFrom(legacySchemas).Draw(t, "legacy_schema")
 		}
 	}
+	overlap := sc.Kind == "leases" && rapid.IntRange(0, 99).Draw(t, "overlap") < 40
+	if overlap {
+		// The trace of such a case carries the write payloads: keep it small.
+		maxBytes := 1 << 20
+		if tier == "thorough" {
+			maxBytes = 4 << 20
+		}
+		if per := sc.InitLen + 100; sc.InitN*per > maxBytes {
+			sc.InitN = maxBytes / per
+		}
+	}
 	nSaves := rapid.IntRange(1, 4).Draw(t, "n_saves")
 	for i := 0; i < nSaves; i++ {
 		s := Save{Seed: rapid.IntRange(0, 9).Draw(t, "seed")}
@@ -175,6 +189,10 @@ func Gen(t *rapid.T, tier string) any {
 				s.Op = "remove"
 			}
 			s.Len = rapid.IntRange(1, 200).Draw(t, "host_len")
+			if overlap && i == nSaves-1 && s.Op != "migrate" {
+				s.Op = "overlap"
+				s.N = rapid.IntRange(2, 3).Draw(t, "overlap_k")
+			}
 		default:
 			s.Op = "refresh"
 			s.N, s.Len = genSize(t, tier, sc.Kind, "save")
@@ -338,6 +356,16 @@ type runData struct {
 	after    []version // per save, as stored by the helper
 	exitCode int
 	stderr   string
+	capture  bool // the trace carries the write payloads
+}
+
+func hasOverlap(saves []Save) bool {
+	for _, s := range saves {
+		if s.Op == "overlap" {
+			return true
+		}
+	}
+	return false
 }
 
 type injectSpec struct {
@@ -375,7 +403,11 @@ func (r *runData) normText(s string) string {
 
 // runHelper prepares a fresh directory with the scenario's initial files and
 // runs the helper in it under strace.
-func runHelper(base string, seq int, sc *Scenario, init map[string][]byte, inj *injectSpec) (*runData, error) {
+func runHelper(base string, seq int, sc *Scenario, saves []Save, init map[string][]byte, inj *injectSpec) (*runData, error) {
+	// A case with an overlapping save is traced with the write payloads (the
+	// content of concurrent writes cannot be told from their position) and
+	// lets the helper use several CPUs.
+	capture := inj == nil && hasOverlap(saves)
 	r := &runData{dir: filepath.Join(base, "run-"+strconv.Itoa(seq))}
 	r.work = filepath.Join(r.dir, "work")
 	r.out = filepath.Join(r.dir, "out")
@@ -413,7 +445,8 @@ func runHelper(base string, seq int, sc *Scenario, init map[string][]byte, inj *
 			return nil, err
 		}
 	}
-	spec := &HelperSpec{Kind: sc.Kind, WorkDir: r.work, OutDir: r.out, Saves: sc.Saves}
+	r.capture = capture
+	spec := &HelperSpec{Kind: sc.Kind, WorkDir: r.work, OutDir: r.out, Saves: saves}
 	raw, _ := json.Marshal(spec)
 	specPath := filepath.Join(r.dir, "spec.json")
 	if err := os.WriteFile(specPath, raw, 0o644); err != nil {
@@ -424,7 +457,11 @@ func runHelper(base string, seq int, sc *Scenario, init map[string][]byte, inj *
 		return nil, err
 	}
 	tracePath := filepath.Join(r.dir, "trace.txt")
-	args := []string{"-y", "-s", "0", "-o", tracePath, "-e", "trace=" + crashfs.TraceSet}
+	strLimit, procs := "0", "1"
+	if capture {
+		strLimit, procs = strconv.Itoa(64<<20), "4"
+	}
+	args := []string{"-y", "-s", strLimit, "-o", tracePath, "-e", "trace=" + crashfs.TraceSet}
 	if inj == nil {
 		// Baseline: every thread is traced, so that a save done by another
 		// thread would be seen.
@@ -437,7 +474,7 @@ func runHelper(base string, seq int, sc *Scenario, init map[string][]byte, inj *
 	}
 	args = append(args, exe, "-test.run", "^$")
 	cmd := exec.Command("strace", args...)
-	cmd.Env = append(os.Environ(), HelperEnv+"="+specPath, "GOMAXPROCS=1", "TMPDIR="+r.tmp, "VERIF_PROP=", "VERIF_REPLAY=")
+	cmd.Env = append(os.Environ(), HelperEnv+"="+specPath, "GOMAXPROCS="+procs, "TMPDIR="+r.tmp, "VERIF_PROP=", "VERIF_REPLAY=")
 	var stderr bytes.Buffer
 	cmd.Stderr = &stderr
 	cmd.Stdout = io.Discard
